@@ -156,6 +156,10 @@ def updateOpt (s : Dyn) (o : OptD) (v : Str) : Except Err Dyn :=
 def updateMul (s : Dyn) (m : MulD) (v : Str) : Except Err Dyn :=
   .ok { s with vals := upd s.vals m.name (s.vals m.name ++ [v]), dirtyM := upd s.dirtyM m.name true }
 
+/-- What one positive occurrence adds: the letter's multiplicity in a short token, one for a long one. -/
+def togInc (t : TogD) (u : UI) : Int :=
+  if u.isShort then (match t.short with | some c => (u.shortList.count c : Int) | none => 0) else 1
+
 def updateTog (s : Dyn) (t : TogD) (u : UI) : Except Err Dyn :=
   if u.hasValue then .error .user                 -- a toggle cannot be given a value
   else if u.hasPrefix && u.nameWithoutPrefix == t.name then
@@ -165,10 +169,7 @@ def updateTog (s : Dyn) (t : TogD) (u : UI) : Except Err Dyn :=
   else
     if s.dirtyT t.name && s.given t.name == 0 then .error .user
     else
-      let inc : Int := if u.isShort then
-          (match t.short with | some c => (u.shortList.count c : Int) | none => 0)
-        else 1
-      .ok { s with given := upd s.given t.name (s.given t.name + inc), dirtyT := upd s.dirtyT t.name true }
+      .ok { s with given := upd s.given t.name (s.given t.name + togInc t u), dirtyT := upd s.dirtyT t.name true }
 
 /-! ### the parse loop -/
 
@@ -257,6 +258,11 @@ abbrev Env := Str → Option Str
 /-- `nitro::env::get(name)` with the empty default. -/
 def envVal (env : Env) (name : Str) : Str := (env name).getD []
 
+/-- The value of the bound environment variable, empty when nothing is bound. -/
+def envOf (env : Env) : Option Str → Str
+  | some n => envVal env n
+  | none => []
+
 /-- `std::getline(str, element, ';')` until it fails: pieces between `;`, a final empty piece dropped. -/
 def splitSemiGo : Str → Str → List Str
   | [], cur => if cur = [] then [] else [cur.reverse]
@@ -283,7 +289,7 @@ def parseEnvWord (w : Str) : Option Bool :=
 def checkOpt (env : Env) (s : Dyn) (o : OptD) : Except Err Dyn :=
   if (s.val o.name).isSome then .ok s
   else
-    let e := match o.env with | some n => envVal env n | none => []
+    let e := envOf env o.env
     if e != [] then
       .ok { s with val := upd s.val o.name (some e), dirtyO := upd s.dirtyO o.name true }
     else match o.dflt with
@@ -293,7 +299,7 @@ def checkOpt (env : Env) (s : Dyn) (o : OptD) : Except Err Dyn :=
 def checkMul (env : Env) (s : Dyn) (m : MulD) : Except Err Dyn :=
   if s.vals m.name != [] then .ok s
   else
-    let e := match m.env with | some n => envVal env n | none => []
+    let e := envOf env m.env
     if e != [] then
       let parts := splitSemi e
       .ok { s with vals := upd s.vals m.name parts,
@@ -305,7 +311,7 @@ def checkMul (env : Env) (s : Dyn) (m : MulD) : Except Err Dyn :=
 def checkTog (env : Env) (s : Dyn) (t : TogD) : Except Err Dyn :=
   if s.dirtyT t.name then .ok s
   else
-    let e := match t.env with | some n => envVal env n | none => []
+    let e := envOf env t.env
     if e != [] then
       match parseEnvWord e with
       | some b => .ok { s with given := upd s.given t.name (if b then 1 else 0), dirtyT := upd s.dirtyT t.name true }
